@@ -161,7 +161,7 @@ def run(rep, tier):
         pm = [p for p in _opaque(F).run(fn_m) if p.kind == "ret"]
         rm = _bare(pm[0].ret) if len(pm) == 1 else ""
         cl = [[_bare(q.ret) for q in _opaque(F).run(g) if q.kind == "ret"] for g in F.closures_of(fn_m)]
-        if re.match(r"^compose\(a1, fold\(iter\(a2\), default\(\), closure\[\]\)\)$", rm) and cl == [["compose(a2, a3)"]]:
+        if re.match(r"^(compose\(a1, fold\(iter\(a2\), default\(\), closure\[\]\)\)|fold\(iter\(a2\), a1, closure\[\]\))$", rm) and cl == [["compose(a2, a3)"]]:
             rep.ok("R13.2", "compose_many=left-fold")
         else:
             rep.bad("R13.2", "compose_many", "compose_many is %s with step %s; expected self.compose(&fold(transforms, identity, |acc, t| acc.compose(t))): "
